@@ -14,10 +14,30 @@ TETRA = [[0, 1, 2], [0, 1, 3], [0, 2, 3], [1, 2, 3]]
 OCTA = [[0, 2, 4], [2, 1, 4], [1, 3, 4], [3, 0, 4], [2, 0, 5], [1, 2, 5], [3, 1, 5], [0, 3, 5]]
 
 
+
+
+def _ring():
+    """a square ring (one body with a through-hole, genus 1): 16 vertices, 32 faces, closed; V - F/2 = 0"""
+    fs = []
+    quad = lambda a, b, c, d: fs.extend([[a, b, c], [a, c, d]])  # noqa: E731
+    for i in range(4):
+        j = (i + 1) % 4
+        quad(i, j, 4 + j, 4 + i)              # bottom annulus
+        quad(8 + i, 8 + j, 12 + j, 12 + i)    # top annulus
+        quad(i, j, 8 + j, 8 + i)              # outer wall
+        quad(4 + i, 4 + j, 12 + j, 12 + i)    # wall of the hole
+    sq = [(-1, -1), (1, -1), (1, 1), (-1, 1)]
+    co = [[2 * x, 2 * y, 0] for x, y in sq] + [[x, y, 0] for x, y in sq] + [[2 * x, 2 * y, 1] for x, y in sq] + [[x, y, 1] for x, y in sq]
+    return fs, co
+
+
+RING, RING_COORDS = _ring()
+
+
 def gen_faces(rng):
     parts, off = [], 0
     for _ in range(rng.choice([1, 1, 2, 3])):
-        base = rng.choice([CUBE, TETRA, OCTA])
+        base = rng.choice([CUBE, TETRA, OCTA, RING])  # RING: a part with a through-hole (the Euler characteristic of a part is not always 2)
         nv = max(max(f) for f in base) + 1
         faces = [[v + off for v in f] for f in base]
         if rng.random() < 0.35:
@@ -48,7 +68,8 @@ COORDS = {
     "TETRA": [[0, 0, 0], [2, 0, 0], [0, 2, 0], [0, 0, 2]],
     "OCTA": [[1, 0, 0], [-1, 0, 0], [0, 1, 0], [0, -1, 0], [0, 0, 1], [0, 0, -1]],
 }
-BASES = {"CUBE": CUBE, "TETRA": TETRA, "OCTA": OCTA}
+COORDS["RING"] = RING_COORDS
+BASES = {"CUBE": CUBE, "TETRA": TETRA, "OCTA": OCTA, "RING": RING}
 
 
 def gen_closed(rng):
@@ -57,7 +78,7 @@ def gen_closed(rng):
     verts, faces, off = [], [], 0
     k = rng.choice([1, 1, 2, 3])
     for j in range(k):
-        name = rng.choice(["CUBE", "TETRA", "OCTA"])
+        name = rng.choice(["CUBE", "TETRA", "OCTA", "RING"])
         co = [[c[0] + 5 * j, c[1], c[2]] for c in COORDS[name]]
         fs = [[v + off for v in f] for f in BASES[name]]
         verts += co
